@@ -1098,7 +1098,17 @@ class TextXVisitor(RRELVisitor):
         try:
             to_match = children[0][1:-1]
             if "\\" in to_match:
-                to_match = decode_escapes(to_match)
+                try:
+                    to_match = decode_escapes(to_match)
+                except ValueError as e:
+                    line, col = self.grammar_parser.pos_to_linecol(node.position)
+                    raise TextXSyntaxError(
+                        f"Invalid escape sequence in string match {children[0]}"
+                        f" at {(line, col)}: {e}",
+                        line,
+                        col,
+                        filename=self.metamodel.file_name,
+                    ) from e
 
         except IndexError:
             to_match = ""
